@@ -152,6 +152,9 @@ class Peer(Actor):
         st = self.st
         if st is None or self.closed or not self.reading:
             return False
+        op = self._op()
+        if op is not None and op[0] in ('tls_client', 'tls_server'):
+            return False        # what arrives from now on belongs to the TLS session about to start
         if st.rx:
             return True
         if (st.fin_rcvd and not self.saw_eof and not st.rst_rcvd) or \
@@ -383,7 +386,13 @@ class Peer(Actor):
                 nxt = min([c for c in op[3] if c > self._send_pos] + [len(data)])
                 kk = nxt - self._send_pos
             if kk > 0:
-                self.tls.write(bytes(data[self._send_pos:self._send_pos + kk]))
+                try:
+                    self.tls.write(bytes(data[self._send_pos:self._send_pos + kk]))
+                except OSError as e:        # ssl.SSLError: the session is gone (peer closed / alert)
+                    self.failed = 'tls-send:%s' % type(e).__name__
+                    w.ev(self.name, 'write-plain', type(e).__name__)
+                    self._advance()
+                    return
                 self._raw_out += self.tls.take_out()
                 self.tx += data[self._send_pos:self._send_pos + kk]
                 self._send_pos += kk
